@@ -115,6 +115,15 @@ func (c *caseCtx) judge(tree *gen.Expr, expr string, doc interface{}, api string
 		return true
 	}
 	if matches(res, obs) {
+		// the value the specification assigns is JSON data: a nil slice where an empty array is due, a NaN or
+		// a foreign Go type is not "exactly that value" even where the comparison above is lenient
+		if obs.Err == nil {
+			if why := mon.JSONShape(obs.V); why != "" {
+				c.r.Violate(&mon.Violation{Workload: c.wl, Index: c.idx, API: api, Expr: expr, Doc: doc,
+					Expected: expectedString(res) + " as JSON data", Observed: obs.String(), Detail: why, Class: c.wl + ": result is not JSON data"})
+				return false
+			}
+		}
 		return true
 	}
 	class := ""
